@@ -103,9 +103,14 @@ class OpGen:
             self.vars[name] = {"type": "Boolean!", "default": None, "provided": True, "value": r.choice([True, False])}
         elif k < 0.8:
             self.vars[name] = {"type": "Boolean", "default": r.choice(["true", "false"]), "provided": False, "value": None}
-        else:
+        elif k < 0.93:
             self.vars[name] = {"type": "Boolean", "default": r.choice(["true", "false"]), "provided": True,
                                "value": r.choice([True, False])}
+        else:
+            # nullable variable with a default, explicitly set to null: the validator accepts it at `if: Boolean!`
+            # (the default makes it allowed) and the condition cannot be evaluated at run time -> field error (4e87d3d)
+            self.vars[name] = {"type": "Boolean", "default": r.choice(["true", "false"]), "provided": True, "value": None}
+            self.features.add("directive-null-variable")
         self.features.add("directive-variable")
         return name
 
@@ -116,7 +121,11 @@ class OpGen:
         out = []
         names = r.choice([["skip"], ["include"], ["skip", "include"], ["include", "skip"]])
         for n in names:
-            if r.random() < 0.5:
+            if r.random() < 0.03:
+                # a list literal at `if: Boolean!` passes validation (finding V8) and is a field error at run time
+                out.append("@%s(if: [%s])" % (n, r.choice(["true", "false"])))
+                self.features.add("directive-bad-literal")
+            elif r.random() < 0.5:
                 out.append("@%s(if: %s)" % (n, r.choice(["true", "false"])))
             else:
                 out.append("@%s(if: $%s)" % (n, self.bool_var()))
@@ -615,10 +624,35 @@ def adversarial_documents(rng, desc, n):
             text = ("{ ...%s } fragment %s on %s { ...%s %s } fragment %s on %s { ...%s } fragment %s on %s { %s }"
                     % (a, a, root, b, inner, b, root, c, c, root, alias_conflict))
             out.append(("nested-fragments-conflict", text, {}))
-        elif k == 10:
+        elif k == 10 and rng.random() < 0.5:
             text = "{ ...A } fragment A on %s { ...B } fragment B on %s { ...A %s%s%s }" % (
                 root, root, any_f["name"], req_args(any_f), sub(any_f))
             out.append(("fragment-cycle", text, {}))
+        elif k == 10:
+            # a fragment cycle NEXT TO an acyclic fragment, names in every alphabetical arrangement (memo tables keyed
+            # by sorted name pairs), the cycle of length 1..3, the acyclic fragment also spread inside the cycle
+            names = rng.sample(["Alpha", "Back", "Loop", "Mid", "Zed", "A0", "b1"], 4)
+            ok_name, cyc = names[0], names[1:1 + rng.randint(1, 3)]
+            inner = "%s%s%s" % (any_f["name"], req_args(any_f), sub(any_f))
+            defs = ["fragment %s on %s { %s }" % (ok_name, root, inner)]
+            for i, n in enumerate(cyc):
+                nxt = cyc[(i + 1) % len(cyc)]
+                extra = (" ..." + ok_name) if rng.random() < 0.4 else ""
+                defs.append("fragment %s on %s { ...%s%s%s }" % (n, root, nxt, extra, (" " + inner) if rng.random() < 0.5 else ""))
+            rng.shuffle(defs)
+            spreads = ["..." + ok_name, "..." + cyc[0]] + (["..." + rng.choice(cyc)] if rng.random() < 0.3 else [])
+            rng.shuffle(spreads)
+            out.append(("fragment-cycle-beside-acyclic", "{ %s } %s" % (" ".join(spreads), " ".join(defs)), {}))
+        elif k == 11 and rng.random() < 0.5 and any(a.get("default") not in (None, "null") and a["type"][0] != "nonNull" for f in witha for a in f["args"]):
+            # the same field once WITHOUT the argument (its non-null default applies) and once with an explicit `null`:
+            # two different calls under one response key -- must be rejected
+            f = rng.choice([f for f in witha if any(a.get("default") not in (None, "null") and a["type"][0] != "nonNull" for a in f["args"])])
+            a = rng.choice([a for a in f["args"] if a.get("default") not in (None, "null") and a["type"][0] != "nonNull"])
+            one = "%s%s%s" % (f["name"], req_args(f), sub(f))
+            two = "%s%s%s" % (f["name"], req_args(f, {a["name"]: "null"}), sub(f))
+            pair = [one, two]
+            rng.shuffle(pair)
+            out.append(("dup-field-null-vs-default", "{ %s %s }" % tuple(pair), {}))
         elif k == 11 and leaf:
             f = rng.choice(leaf)
             out.append(("subselection-on-leaf", "{ %s%s { x } }" % (f["name"], req_args(f)), {}))
